@@ -68,6 +68,7 @@ type Engine struct {
 	keepSMT      bool
 	replay       bool // replay candidate counterexamples on the real code
 	reachNotes   bool // per-return reachability notes (verbose / thorough)
+	crossCheck   bool // thorough: every discharged obligation is re-run on a second solver
 	debug        bool
 	oblFilter    string
 
